@@ -635,6 +635,7 @@ type record struct {
 	thread, seq int
 	inv, res    uint64
 	sec, ms     int64
+	rsec, rms   int64 // wall clock at the response
 	args        command
 	reply       string
 	gid         uint64
@@ -719,8 +720,9 @@ func runPhase(ph phase, outdir string, tcp bool) (status string, err error) {
 		inv := clock.Add(1)
 		out := exec(slot, toBytes(c))
 		res := clock.Add(1)
+		end := time.Now()
 		recs[slot] = append(recs[slot], record{thread: thread, seq: seq, inv: inv, res: res,
-			sec: now.Unix(), ms: now.UnixMilli(), args: c, reply: out, gid: gidOf(ph.nolog)})
+			sec: now.Unix(), ms: now.UnixMilli(), rsec: end.Unix(), rms: end.UnixMilli(), args: c, reply: out, gid: gidOf(ph.nolog)})
 	}
 	for i, c := range ph.setup {
 		if c[0][0] == '@' {
@@ -781,7 +783,7 @@ func runPhase(ph phase, outdir string, tcp bool) (status string, err error) {
 	if status == "OK" {
 		for _, rs := range recs {
 			for _, r := range rs {
-				fmt.Fprintf(hw, "H %d %d %d %d %d %d %s | %s\n", r.thread, r.seq, r.inv, r.res, r.sec, r.ms, hexArgs(r.args), r.reply)
+				fmt.Fprintf(hw, "H %d %d %d %d %d %d %d %d %s | %s\n", r.thread, r.seq, r.inv, r.res, r.sec, r.ms, r.rsec, r.rms, hexArgs(r.args), r.reply)
 				gidThread[r.gid] = r.thread
 				if strings.HasPrefix(r.reply, "!") {
 					npanic++
